@@ -2,10 +2,10 @@
 import fcntl, hashlib, json, os, re, shutil, subprocess, sys, time
 
 V = os.environ.get('VERIF_ROOT') or os.path.dirname(os.path.dirname(os.path.abspath(__file__)))
-REPO = '/repo'
+REPO = os.environ.get('VERIF_REPO') or '/repo'   # the override exists for tools/mutscan (scratch copies); the registered commands never set it
 BUILD = V + '/build'
 LEAN = V + '/lean'
-ENV = dict(os.environ, GOFLAGS='-mod=mod', GOPROXY='off', GOSUMDB='off', GOTOOLCHAIN='local', VERIF_ROOT=V)
+ENV = dict(os.environ, GOFLAGS='-mod=mod', GOPROXY='off', GOSUMDB='off', GOTOOLCHAIN='local', VERIF_ROOT=V, VERIF_REPO=REPO)
 ALLOWED_AXIOMS = {'propext', 'Classical.choice', 'Quot.sound'}
 
 TRUSTED_BASE = [
